@@ -9,6 +9,7 @@ use crate::{block_on, num_of, uuid_of};
 pub fn run(scn: &Value) -> Value {
     match scn["what"].as_str().unwrap_or("") {
         "expire" => expire(scn),
+        "storage_calls" => storage_calls(scn),
         other => json!({"error": format!("unknown model scenario {other}")}),
     }
 }
@@ -56,3 +57,144 @@ fn expire(scn: &Value) -> Value {
     json!({"ok": res.is_ok(), "err": res.err().map(|e| e.to_string()), "purged": purged, "ops_recorded": n1 - n0,
            "real_now": taskchampion::chrono::Utc::now().timestamp()})
 }
+
+// ----------------------------------------------------------------------------- storage call sequences
+
+use std::collections::BTreeMap;
+use taskchampion::storage::{AccessMode, Storage, StorageTxn, TaskMap};
+use taskchampion::SqliteStorage;
+
+fn taskmap_of(v: &Value) -> TaskMap {
+    let mut m = TaskMap::new();
+    if let Some(o) = v.as_object() {
+        for (k, x) in o {
+            if let Some(s) = crate::sync_scn::value_string(x) {
+                m.insert(k.clone(), s);
+            }
+        }
+    }
+    m
+}
+
+fn taskmap_json(m: &TaskMap) -> Value {
+    let sorted: BTreeMap<_, _> = m.iter().collect();
+    let mut o = serde_json::Map::new();
+    for (k, v) in sorted {
+        o.insert(k.clone(), crate::sync_scn::show_string(v));
+    }
+    Value::Object(o)
+}
+
+fn op_of(d: &Value) -> Operation {
+    match d["op"].as_str().unwrap() {
+        "create" => Operation::Create { uuid: uuid_of(d["uuid"].as_u64().unwrap()) },
+        "delete" => Operation::Delete { uuid: uuid_of(d["uuid"].as_u64().unwrap()), old_task: taskmap_of(&d["old_task"]) },
+        "update" => Operation::Update {
+            uuid: uuid_of(d["uuid"].as_u64().unwrap()),
+            property: d["prop"].as_str().unwrap().to_string(),
+            old_value: crate::sync_scn::value_string(&d["old_value"]),
+            value: crate::sync_scn::value_string(&d["value"]),
+            timestamp: ts_of(&d["ts"]),
+        },
+        _ => Operation::UndoPoint,
+    }
+}
+
+fn op_json(op: &Operation) -> Value {
+    match op {
+        Operation::Create { uuid } => json!({"op": "create", "uuid": num_of(*uuid) as u64}),
+        Operation::Delete { uuid, old_task } => json!({"op": "delete", "uuid": num_of(*uuid) as u64, "old_task": taskmap_json(old_task)}),
+        Operation::Update { uuid, property, old_value, value, timestamp } => json!({"op": "update", "uuid": num_of(*uuid) as u64,
+            "prop": property, "old_value": old_value.as_ref().map(|s| crate::sync_scn::show_string(s)),
+            "value": value.as_ref().map(|s| crate::sync_scn::show_string(s)), "ts": timestamp.timestamp()}),
+        Operation::UndoPoint => json!({"op": "undopoint"}),
+    }
+}
+
+fn tasks_list_json(mut v: Vec<(taskchampion::Uuid, TaskMap)>) -> Value {
+    v.sort_by_key(|(u, _)| *u);
+    Value::Array(v.iter().map(|(u, m)| json!([num_of(*u) as u64, taskmap_json(m)])).collect())
+}
+
+fn res<T>(r: Result<T, taskchampion::Error>, f: impl FnOnce(T) -> Value) -> Value {
+    match r {
+        Ok(v) => json!({"ok": f(v)}),
+        Err(_) => json!({"err": true}),
+    }
+}
+
+fn run_calls<S: Storage>(storage: &mut S, calls: &[Value]) -> Vec<Value> {
+    let mut out = Vec::new();
+    let mut i = 0;
+    while i <= calls.len() {
+        // one transaction per segment between commit/abandon
+        let mut txn = block_on(storage.txn()).expect("txn");
+        let mut reopened = false;
+        while i < calls.len() {
+            let c = &calls[i];
+            i += 1;
+            let name = c[0].as_str().unwrap();
+            let u = |k: usize| uuid_of(c[k].as_u64().unwrap());
+            let r = match name {
+                "get_task" => res(block_on(txn.get_task(u(1))), |o| o.map(|m| taskmap_json(&m)).unwrap_or(Value::Null)),
+                "create_task" => res(block_on(txn.create_task(u(1))), |b| json!(b)),
+                "set_task" => res(block_on(txn.set_task(u(1), taskmap_of(&c[2]))), |_| json!(null)),
+                "delete_task" => res(block_on(txn.delete_task(u(1))), |b| json!(b)),
+                "all_tasks" => res(block_on(txn.all_tasks()), tasks_list_json),
+                "all_task_uuids" => res(block_on(txn.all_task_uuids()), |mut v| { v.sort(); json!(v.iter().map(|x| num_of(*x) as u64).collect::<Vec<_>>()) }),
+                "base_version" => res(block_on(txn.base_version()), |v| json!(num_of(v) as u64)),
+                "set_base_version" => res(block_on(txn.set_base_version(u(1))), |_| json!(null)),
+                "add_operation" => res(block_on(txn.add_operation(op_of(&c[1]))), |_| json!(null)),
+                "remove_operation" => res(block_on(txn.remove_operation(op_of(&c[1]))), |_| json!(null)),
+                "unsynced_operations" => res(block_on(txn.unsynced_operations()), |v| json!(v.iter().map(op_json).collect::<Vec<_>>())),
+                "num_unsynced_operations" => res(block_on(txn.num_unsynced_operations()), |n| json!(n)),
+                "get_task_operations" => res(block_on(txn.get_task_operations(u(1))), |v| json!(v.iter().map(op_json).collect::<Vec<_>>())),
+                "sync_complete" => res(block_on(txn.sync_complete()), |_| json!(null)),
+                "get_working_set" => res(block_on(txn.get_working_set()), |v| json!(v.iter().map(|x| x.map(|y| num_of(y) as u64)).collect::<Vec<_>>())),
+                "add_to_working_set" => res(block_on(txn.add_to_working_set(u(1))), |n| json!(n)),
+                "set_working_set_item" => res(block_on(txn.set_working_set_item(c[1].as_u64().unwrap() as usize, c[2].as_u64().map(uuid_of))), |_| json!(null)),
+                "clear_working_set" => res(block_on(txn.clear_working_set()), |_| json!(null)),
+                "get_pending_tasks" => res(block_on(txn.get_pending_tasks()), tasks_list_json),
+                "is_empty" => res(block_on(txn.is_empty()), |b| json!(b)),
+                "commit" => {
+                    let r = res(block_on(txn.commit()), |_| json!(null));
+                    out.push(r);
+                    reopened = true;
+                    break;
+                }
+                "abandon" => {
+                    out.push(json!({"ok": null}));
+                    reopened = true;
+                    break;
+                }
+                other => json!({"unknown": other}),
+            };
+            out.push(r);
+        }
+        drop(txn);
+        if !reopened {
+            break;
+        }
+    }
+    out
+}
+
+pub fn storage_calls(scn: &Value) -> Value {
+    let calls = scn["calls"].as_array().cloned().unwrap_or_default();
+    let mut mem = InMemoryStorage::new();
+    let mem_out = run_calls(&mut mem, &calls);
+    let dir = std::env::temp_dir().join(format!("tc-replay-{}-{}", std::process::id(), NEXT.fetch_add(1, std::sync::atomic::Ordering::SeqCst)));
+    let _ = std::fs::create_dir_all(&dir);
+    let sql_out = match block_on(SqliteStorage::new(dir.clone(), AccessMode::ReadWrite, true)) {
+        Ok(mut s) => {
+            let o = run_calls(&mut s, &calls);
+            drop(s);
+            o
+        }
+        Err(e) => vec![json!({"sqlite_open_failed": e.to_string()})],
+    };
+    let _ = std::fs::remove_dir_all(&dir);
+    json!({"inmemory": mem_out, "sqlite": sql_out})
+}
+
+static NEXT: std::sync::atomic::AtomicUsize = std::sync::atomic::AtomicUsize::new(0);
